@@ -14,3 +14,5 @@ for d in seeded/*/; do
   git -C /repo checkout -- . 
 done
 git -C /repo status --short | head -3
+# the runs above rewrote evidence/*.json from a patched tree: restore the committed (clean-tree) evidence
+git -C /verif checkout -- evidence
